@@ -191,7 +191,7 @@ Theorem tail_sites_sound : forall leaks tbl exits gotos, table_ok leaks tbl exit
 Proof. exact path_sound. Qed.
 Print Assumptions tail_sites_sound.
 
-(* the table generated from the current generator.go passes the check with three positions set aside *)
+(* the table generated from the current generator.go passes the check; no position is set aside (known_leaks = []) *)
 Theorem tail_sites_generated_ok : table_ok known_leaks tail_sites tail_exits tail_gotos = true.
 Proof. exact generated_table_ok. Qed.
 Print Assumptions tail_sites_generated_ok.
@@ -232,16 +232,19 @@ Theorem tail_sites_agree_with_model : forall body sub,
 Proof. exact generated_flag_iff_in_tail_position. Qed.
 Print Assumptions tail_sites_agree_with_model.
 
-(* the FULL statement (leak_free dropped) is false of the code as it is: two findings, replayed on the real
-   interpreter by the check (KNOWN_FINDINGS tco-def-lhs, tco-include-nonlast) *)
-Theorem tail_flag_refuted_def_target :
-  exists p, path_flag tail_sites p ST = Some ST /\ forallb tail_pos p = false.
-Proof. exact generated_refuted_def_lhs. Qed.
-Print Assumptions tail_flag_refuted_def_target.
-Theorem tail_flag_refuted_include_nonlast_file :
-  exists p, path_flag tail_sites p ST = Some ST /\ forallb tail_pos p = false.
-Proof. exact generated_refuted_include_nonlast_file. Qed.
-Print Assumptions tail_flag_refuted_include_nonlast_file.
+(* known_leaks is empty: the statements above hold for EVERY path *)
+Theorem tail_flag_iff_tail_position_every_path : forall p,
+  exists y, path_flag tail_sites p ST = Some y /\ (y = ST <-> forallb tail_pos p = true).
+Proof. intros p. exact (generated_flag_iff_tail_position p (all_leak_free p)). Qed.
+Print Assumptions tail_flag_iff_tail_position_every_path.
+
+(* the two defects found with this table (KNOWN_FINDINGS fixed: 0c81737, 9d37ebd) stay repaired: a call as
+   the target of def / set, and the forms of every included file, are compiled WITHOUT the flag *)
+Theorem def_target_and_include_are_not_tail :
+  forall q, In q [PDefLhs; PSetLhs; PIncludeLastFile; PIncludeNonLastFile] ->
+  pos_step tail_sites q ST = Some SF /\ pos_step tail_sites q SF = Some SF.
+Proof. exact generated_def_target_and_include_cleared. Qed.
+Print Assumptions def_target_and_include_are_not_tail.
 
 (* ---- non-vacuity (tests, not theorems): the loop f(n) = if n == 0 then 0 else f(n-1) ---- *)
 Definition loop_prog (tailcall : bool) (n : Z) : list expr :=
